@@ -26,13 +26,13 @@ OPS = ["==", "eq", "!=", "neq", "&lt;", "lt", "<", "&gt;", "gt", ">", "&lt;=", "
 CANON_OPS = ["==", "!=", "<", ">", "<=", ">="]
 
 INT_VALS = [0, 1, -1, 7]
-FLOAT_VALS = [0.0, -0.0, 2.0, 2.5]
+FLOAT_VALS = [0.0, -0.0, 2.0, 2.5, 0.30000000000000004, 1e-10, 2.0000000001]   # the last three: a rounding error away from 0.3, 0 and 2
 STR_VALS = ["", "a", "b", "1", "1.0"]
 BOOL_VALS = [False, True]
 # literals in every spelling Python's int() / float() accept (leading zeros, sign, surrounding blanks, digit-group underscores, exponents) and
 # some they reject for that type (a float literal against an int value, hex notation, the empty string): rejected ones must fail, not match
 LITS = {"int": ["-1", "0", "1", "7", "8", "007", "+7", " 7 ", "-0", "0_7", "0x7", "7.0", "1e0", ""],
-        "float": ["0.0", "-0.0", "2.0", "2.5", "3", "-1e0", "02.50", "+2.5", " 2.5\t", "2.5e0", "25e-1", ".5", "2.", "2_0.0", "inf", "-inf", "nan", "0x2", ""],
+        "float": ["0.0", "-0.0", "2.0", "2.5", "0.3", "3", "-1e0", "02.50", "+2.5", " 2.5\t", "2.5e0", "25e-1", ".5", "2.", "2_0.0", "inf", "-inf", "nan", "0x2", ""],
         "str": ["", "a", "b", "ab"], "bool": ["0", "1", "01", " 1", "true", ""]}
 
 
